@@ -75,6 +75,7 @@ type ex struct {
 	realtime  bool              // op `realtime`: get/hs/conc tell the model the wall clock of the call
 	callT0    time.Time         // GetCertificate call of the last handshake
 	callT1    time.Time
+	signFail  bool // op `signfail on`: the CA signer fails; refusing a listed host is then legitimate
 }
 
 func (P) NewExec() core.Exec {
@@ -179,6 +180,10 @@ func (e *ex) check(mode, fb, sni string, s served) core.Result {
 	}
 	core.Count("class:" + class)
 	if s.err != nil || s.tlsc == nil {
+		if class == "listed" && e.signFail {
+			core.Count("refused:signer-down")
+			return core.Result{}
+		}
 		if class == "listed" {
 			return fail("c06:refused-listed-host", "host %q (names %q) was refused: %v", host, name, s.err)
 		}
@@ -454,6 +459,19 @@ func (e *ex) do(op string) core.Result {
 		return core.Result{Impl: "ok"}
 	case "realtime":
 		e.realtime = true
+		return core.Result{Impl: "ok"}
+	case "signfail":
+		// fault injection at the signing step: the CA key's Sign fails from now on / works again
+		if len(t) != 2 || (t[1] != "on" && t[1] != "off") {
+			break
+		}
+		fs, ok := signers.Load(e.cfg())
+		if !ok {
+			break // only under `ca faulty|faultyec`
+		}
+		e.signFail = t[1] == "on"
+		fs.(*faultySigner).fail.Store(e.signFail)
+		core.Count("signfail:" + t[1])
 		return core.Result{Impl: "ok"}
 	case "sleep":
 		if len(t) != 2 {
